@@ -23,6 +23,7 @@ def c01(A, ctx, tier):
     kernels.r_fixpoint(A, ctx, dict(floor=5))
     storage.r_solverstate(A, ctx, dict(floor=25))
     descent.r_candidate(A, ctx, dict(floor=3))
+    degenerate.r_nansafe(A, ctx, dict(floor=25))
     for k, v in EX01.items():
         ctx.note(f"out of scope {k}: {v}")
     cox.r_istep_multitask(A, ctx, {})
@@ -42,6 +43,8 @@ def c03(A, ctx, tier):
     reweight.r_reweight(A, ctx, dict(floor=9))
     warm.r_path(A, ctx, dict(floor=8))
     descent.r_candidate(A, ctx, dict(floor=3))
+    degenerate.r_nansafe(A, ctx, dict(floor=25))
+    degenerate.r_loopvar(A, ctx, dict(floor=40))
     ctx.note("backtracking exhaustion (`else: pass  # TODO` after 20 halvings) keeps the last "
              "trial step: informational, no rule can say what the right fallback is")
     ctx.assume("prox operators are exact and L_k bounds the curvature (C07/C09)")
@@ -108,6 +111,7 @@ def c19(A, ctx, tier):
     misc.r_zerocol(A, ctx, dict(floor=10))
     misc.r_abseps(A, ctx, dict(floor=300))
     kernels.r_zeroblock(A, ctx, {})
+    degenerate.r_nansafe(A, ctx, dict(floor=25))
     kernels.r_fixpoint(A, ctx, dict(floor=5), rule="R-FIXPOINT-ZEROGROUP")
     pairing.r_pair_eq(A, ctx, dict(only="zero task", floor=2), rule="R-PAIR-ZEROTASK")
     blockpen.r_proxfoc_block(A, ctx, dict(floor=12), rule="R-PROX-ZEROWEIGHT-BLOCK", parts=("nonneg",))
@@ -348,6 +352,7 @@ def c14(A, ctx, tier):
     cox.r_replicated_rows(A, ctx, {})
     cox.r_singleton_groups(A, ctx, {})
     misc.r_inf_hyper(A, ctx, {})
+    misc.r_abseps(A, ctx, dict(floor=300))
     ctx.assume("limit reductions (gamma -> inf, delta -> inf), SLOPE vs L1, Gram vs CD are not decided")
     return dict(explanation="method-by-method equality of lifted terms under the substitution "
                 "that makes the general component coincide with the special one (weights := 1, "
@@ -362,6 +367,7 @@ def c15(A, ctx, tier):
     misc.r_grporder(A, ctx, dict(floor=6))
     misc.r_abseps(A, ctx, dict(floor=300))
     kernels.r_fixpoint(A, ctx, dict(floor=5), rule="R-FIXPOINT-ORDER")
+    degenerate.r_loopvar(A, ctx, dict(floor=40))
     ctx.assume("equivariance of converged solutions and scaling laws are numerical; decided is "
                "the necessary condition that no subscript mixes a working-set position, a "
                "feature, a group, a task or a sample index, and that group specifications keep "
